@@ -21,36 +21,73 @@
 (*   ConnectGuarded  = TRUE is the code after the repair of D7 (the connect    *)
 (*                   phase is under a timeout); with FALSE a silent handshake  *)
 (*                   has no successor and the liveness property Returns fails  *)
-EXTENDS Naturals, FiniteSets, TLC
+EXTENDS Naturals, FiniteSets
 
-CONSTANTS MaxAttempts,     \* retry budget of one stream (20 in the code)
-          Throttle,        \* time between the starts of two attempts (2 s)
-          Timeout,         \* per-item timeout (60 s; read_card: t + 2 s)
-          ConnTimeout,     \* timeout of the whole connect phase (60 s)
-          Replies,         \* model checking: reply frames of an exchange after its acknowledgement
-          MaxFaults,       \* how many faults the terminal may inject in one behaviour
-          ConnectGuarded,
-          MaxStreams,      \* exchanges one public call may run
-          Delays,          \* model checking: reply delays the terminal may choose besides 0
-          AllowAbandon,
-          MaxCalls         \* public calls in one behaviour
+CONSTANTS
+  \* @type: Int;
+  MaxAttempts,     \* retry budget of one stream (20 in the code)
+  \* @type: Int;
+  Throttle,        \* time between the starts of two attempts (2 s)
+  \* @type: Int;
+  Timeout,         \* per-item timeout (60 s; read_card: t + 2 s)
+  \* @type: Int;
+  ConnTimeout,     \* timeout of the whole connect phase (60 s)
+  \* @type: Int;
+  Replies,         \* model checking: reply frames of an exchange after its acknowledgement
+  \* @type: Int;
+  MaxFaults,       \* how many faults the terminal may inject in one behaviour
+  \* @type: Bool;
+  ConnectGuarded,
+  \* @type: Int;
+  MaxStreams,      \* exchanges one public call may run
+  \* @type: Set(Int);
+  Delays,          \* model checking: reply delays the terminal may choose besides 0
+  \* @type: Bool;
+  AllowAbandon,
+  \* @type: Int;
+  MaxCalls         \* public calls in one behaviour
 
-VARIABLES active,      \* a public call is in progress
-          calls,       \* public calls started so far
-          streams,     \* exchanges started by this call
-          attempt,     \* attempts used by the current stream
-          phase,       \* "idle" | "between" | "tick" | "connect" | "reg" | "sys" | "cmd" | "hung"
-          pos,         \* next frame of the current exchange (0 = its acknowledgement)
-          conn,        \* current connection id, 0 = none
-          nconn,       \* highest connection id so far
-          vetted, tainted, closed,   \* sets of connection ids
-          dirty,       \* connections on which the caller left an exchange unfinished
-          now, lastTick, started,
-          connStart,   \* when the connect phase of this attempt began
-          tmo,         \* per-item timeout of the current stream
-          faults,      \* faults injected so far
-          result,      \* "" | "ok" | "fail": how the last stream ended
-          usedCmd      \* connections on which a command frame was sent
+VARIABLES
+  \* @type: Bool;
+  active,      \* a public call is in progress
+  \* @type: Int;
+  calls,       \* public calls started so far
+  \* @type: Int;
+  streams,     \* exchanges started by this call
+  \* @type: Int;
+  attempt,     \* attempts used by the current stream
+  \* @type: Str;
+  phase,       \* "idle" | "between" | "tick" | "connect" | "reg" | "sys" | "cmd" | "hung"
+  \* @type: Int;
+  pos,         \* next frame of the current exchange (0 = its acknowledgement)
+  \* @type: Int;
+  conn,        \* current connection id, 0 = none
+  \* @type: Int;
+  nconn,       \* highest connection id so far
+  \* @type: Set(Int);
+  vetted,      \* connections that passed registration and the identity check
+  \* @type: Set(Int);
+  tainted,     \* connections that saw a failure
+  \* @type: Set(Int);
+  closed,      \* connections the client dropped
+  \* @type: Set(Int);
+  dirty,       \* connections on which the caller left an exchange unfinished
+  \* @type: Int;
+  now,
+  \* @type: Int;
+  lastTick,
+  \* @type: Int;
+  started,
+  \* @type: Int;
+  connStart,   \* when the connect phase of this attempt began
+  \* @type: Int;
+  tmo,         \* per-item timeout of the current stream
+  \* @type: Int;
+  faults,      \* faults injected so far
+  \* @type: Str;
+  result,      \* "" | "ok" | "fail": how the last stream ended
+  \* @type: Set(Int);
+  usedCmd      \* connections on which a command frame was sent
 vars == <<active, calls, streams, attempt, phase, pos, conn, nconn, vetted, tainted, closed, dirty, now, lastTick, started, connStart, tmo,
           faults, result, usedCmd>>
 
@@ -123,7 +160,7 @@ Deadline == IF phase = "cmd" THEN now + tmo ELSE connStart + ConnTimeout
 FrameDelivered(d) == /\ active /\ InExchange /\ (InHandshake => pos = 0)
                      /\ now + d <= Deadline
                      /\ now' = now + d /\ pos' = pos + 1
-                     /\ (phase = "cmd" => usedCmd' = usedCmd \cup {conn}) /\ (phase # "cmd" => UNCHANGED usedCmd)
+                     /\ usedCmd' = (IF phase = "cmd" THEN usedCmd \cup {conn} ELSE usedCmd)
                      /\ UNCHANGED <<active, calls, streams, attempt, phase, conn, nconn, vetted, tainted, closed, dirty, lastTick, started, connStart, tmo, faults, result>>
 \* the completion of the registration: on to the identity check
 RegistrationDone(d) == /\ active /\ phase = "reg" /\ pos = 1 /\ now + d <= Deadline
@@ -139,13 +176,13 @@ ForeignSerial(d) == /\ active /\ phase = "sys" /\ pos = 1 /\ faults < MaxFaults 
                     /\ UNCHANGED <<active, calls, streams, attempt, nconn, vetted, dirty, lastTick, started, connStart, tmo, result, usedCmd>>
 \* the terminal closes the connection or sends something uninterpretable: error at once
 FrameBroken == /\ active /\ InExchange /\ faults < MaxFaults /\ faults' = faults + 1 /\ Drop(TRUE)
-               /\ (phase = "cmd" => usedCmd' = usedCmd \cup {conn}) /\ (phase # "cmd" => UNCHANGED usedCmd)
+               /\ usedCmd' = (IF phase = "cmd" THEN usedCmd \cup {conn} ELSE usedCmd)
                /\ UNCHANGED <<active, calls, streams, attempt, nconn, vetted, dirty, now, lastTick, started, connStart, tmo, result>>
 \* silence (or a reply later than the deadline): the per-item timeout - in the handshake the guard of the connect phase - expires
 FrameSilent == /\ active /\ InExchange /\ faults < MaxFaults /\ faults' = faults + 1
                /\ (phase = "cmd" \/ ConnectGuarded)
                /\ now' = Deadline /\ Drop(TRUE)
-               /\ (phase = "cmd" => usedCmd' = usedCmd \cup {conn}) /\ (phase # "cmd" => UNCHANGED usedCmd)
+               /\ usedCmd' = (IF phase = "cmd" THEN usedCmd \cup {conn} ELSE usedCmd)
                /\ UNCHANGED <<active, calls, streams, attempt, nconn, vetted, dirty, lastTick, started, connStart, tmo, result>>
 \* silence during an unguarded handshake: nothing will ever wake the client up
 HandshakeHang == /\ active /\ InHandshake /\ ~ConnectGuarded /\ faults < MaxFaults /\ faults' = faults + 1 /\ phase' = "hung"
